@@ -6,7 +6,7 @@ From LV Require Import Base.Bytes Model.Obj Model.DocQ Model.PageTree Model.Trav
   Spec.RenumberSpec Spec.AbstractDoc Proofs.EditProofs Proofs.EditProofsEx Proofs.EditProofsTrav
   Proofs.EditProofsDelete Proofs.EditProofsKF Proofs.EditProofsContent Model.EditV0 Model.Renumber
   Proofs.EditProofsBm Proofs.EditProofsOutline Proofs.EditProofsContent2 Proofs.EditProofsDecode Proofs.EditProofsRes
-  Proofs.EditProofsEx2 Model.StreamFilt.
+  Proofs.EditProofsEx2 Proofs.EditProofsCount Model.StreamFilt.
 From LV Require Proofs.FilterProofsDict.
 From LV Require Model.Outline Spec.OutlineSpec Proofs.OutlineProofs.
 
@@ -364,8 +364,61 @@ Theorem C11_resources_add_xobject_partial :
     forall q, res_le (effective_resources (d_objects d) q) (effective_resources (d_objects d') q).
 Proof. exact add_xobject_resources_partial. Qed.
 
+(* frame of add_xobject / add_graphics_state (any graph): trailer and cursor unchanged, no object added or removed, at most
+   two objects differ afterwards (the page when it gets its own Resources entry, and the holder of the category) *)
+Theorem C11_frame_resource_ops :
+  forall follow key d page nm x d' r, add_resource follow key d page nm x = (d', r) ->
+    d_trailer d' = d_trailer d /\ d_max_id d' = d_max_id d /\
+    exists t1 t2, touches_at_most (d_objects d) (d_objects d') t1 t2.
+Proof. exact add_resource_frame. Qed.
+
 Theorem C11_resources_example : ~ category_indirect ex_doc (3, 0)%N K_XObject.
 Proof. exact res_example. Qed.
+
+(* ------------------------------------------------------------------------------------------ *)
+(* I_count, PARTIAL: the Count bookkeeping of delete_pages.  [anc_chain m r l]: l is the chain of dictionary objects the
+   loop meets when it follows Parent from r in m (it ends at a missing Parent, a non-reference Parent or a non-dictionary),
+   none with Count = i64::MIN.  On a chain of pairwise different objects the loop terminates within the fuel delete_pages
+   gives it (never the "hang" outcome), decrements the integer Count of EVERY ancestor by exactly one, leaves everything
+   else alone; delete_pages([n]) = delete_object(page n) (C11_delete_frame, C11_delete_no_reference_left) followed by
+   exactly that.
+   MISSING for the full clause "every Pages node's Count = number of leaf pages below it, page list = old list minus the
+   deleted numbers, order kept": that delete_object reaches every node of a well-formed page tree and that C12's
+   [represents] is preserved (then C12_dfs gives the page list).  Decided on the implementation by the harness
+   (tree_wf before => tree_wf after, page list, contents of the remaining pages) for every generated delete_pages. *)
+Theorem C11_count_loop_partial :
+  forall m r l fuel, anc_chain m r l -> NoDup (map anc_id l) ->
+    (length l < S (length m))%nat /\
+    ((length l < fuel)%nat -> count_loop fuel m r = (dec_all m l, LOk)) /\
+    (forall x, ~ In x (map anc_id l) -> lookup (dec_all m l) x = lookup m x) /\
+    (forall id d c, In (id, d, c) l -> lookup m id = Some (ODict d) ->
+       lookup (dec_all m l) id =
+       Some (ODict (match c with Some z => dict_set d K_Count (OInt (z - 1)) | None => d end))).
+Proof.
+  intros m r l fuel C ND. split; [apply (anc_chain_fuel m r l C ND)|].
+  split; [intro Hf; apply count_loop_chain; assumption|].
+  split; [apply dec_all_other | intros id d c; apply dec_all_member; exact ND].
+Qed.
+
+Theorem C11_delete_pages_one_partial :
+  forall d n pid d1 pd l,
+    assoc_N (get_pages d) n = Some pid ->
+    delete_object d pid = Some (d1, Some (ODict pd)) ->
+    anc_chain (d_objects d1) (as_ref (dict_get pd K_Parent)) l -> NoDup (map anc_id l) ->
+    delete_pages d [n] = (with_objs d1 (dec_all (d_objects d1) l), LOk).
+Proof. exact delete_pages_one. Qed.
+
+(* non-vacuity: deleting page 1 of the example document: its one ancestor's Count goes from 2 to 1, page 2 remains *)
+Theorem C11_count_example_partial :
+  exists d1 pd l,
+    assoc_N (get_pages ex_doc) 1 = Some (3, 0)%N /\
+    delete_object ex_doc (3, 0)%N = Some (d1, Some (ODict pd)) /\
+    anc_chain (d_objects d1) (as_ref (dict_get pd K_Parent)) l /\ NoDup (map anc_id l) /\
+    map anc_id l = [(2, 0)%N] /\
+    page_iter (fst (delete_pages ex_doc [1%N])) = [(4, 0)%N] /\
+    option_map (fun o => match o with ODict nd => dict_get nd K_Count | _ => None end)
+               (lookup (d_objects (fst (delete_pages ex_doc [1%N]))) (2, 0)%N) = Some (Some (OInt 1)).
+Proof. exact count_example. Qed.
 
 (* ------------------------------------------------------------------------------------------ *)
 (* non-vacuity: a concrete document with a page tree and a program that adds a nested bookmark forest (1 > 2 > 3, and 4),
@@ -426,6 +479,10 @@ Print Assumptions C11_change_page_content_example.
 Print Assumptions C11_resources_get_or_create.
 Print Assumptions C11_resources_add_graphics_state.
 Print Assumptions C11_resources_add_xobject_partial.
+Print Assumptions C11_frame_resource_ops.
 Print Assumptions C11_resources_example.
+Print Assumptions C11_count_loop_partial.
+Print Assumptions C11_delete_pages_one_partial.
+Print Assumptions C11_count_example_partial.
 Print Assumptions C11_example.
 Print Assumptions C11_example_doc_ops.
